@@ -316,8 +316,12 @@ func (s *Sim) answer(r *Req, outcome string) {
 	}
 	if r.Type == "get" && outcome != "ok" {
 		s.mu.Lock()
+		r.NotFound = outcome == "err:system.notFound" || outcome == "noresp"
 		rf := s.isRefetch(r)
 		s.mu.Unlock()
+		if r.Rf == 1 {
+			s.markUnsure(r)
+		}
 		if rf {
 			if res := s.W.Res[r.Name]; res != nil && res.V != nil {
 				if v := res.V[r.Query]; v != nil {
@@ -399,11 +403,21 @@ func (t *Transport) enqueueDirect(r *Req, payload []byte, err error) {
 	t.enqueueReply(r, "", payload, err, nil)
 }
 
+func (s *Sim) markUnsure(r *Req) {
+	if res := s.W.Res[r.Name]; res != nil && res.V != nil {
+		if v := res.V[r.Query]; v != nil {
+			s.unsure[v] = true
+			s.sawDerived[v] = true
+		}
+	}
+}
+
 func (s *Sim) answerGet(r *Req) {
 	w := s.W
 	res := w.Res[r.Name]
 	tr := s.tr
 	if res == nil || res.Kind == 'x' {
+		r.NotFound = true
 		tr.enqueueReply(r, r.Name, []byte(errJSON("system.notFound")), nil, nil)
 		return
 	}
@@ -413,15 +427,18 @@ func (s *Sim) answerGet(r *Req) {
 	}
 	norm, ok := res.normalise(r.Query)
 	v := res.V[norm]
-	s.mu.Lock()
-	refetch := s.isRefetch(r)
-	s.mu.Unlock()
+	refetch := r.Rf == 2
+	if r.Rf == 1 {
+		s.markUnsure(r)
+		refetch = true
+	}
 	if !ok || v == nil || v.Deleted {
 		if refetch && v != nil && !v.deleteAnnounced() {
 			// silently deleted: the not-found answer makes the gateway send a delete event
 			v.announce(&StreamEv{Kind: "delete", Derived: true, EmitStep: s.Step, EmitCut: s.Cut}, true)
 			s.sawDerived[v] = true
 		}
+		r.NotFound = true
 		tr.enqueueReply(r, r.Name, []byte(errJSON("system.notFound")), nil, nil)
 		return
 	}
